@@ -219,7 +219,7 @@ func (sc FlvScript) RunImpl(want string) string {
 		return strings.Join(parts, " ")
 	}
 	got := ""
-	Eventually(opBudget, func() bool { got = obs(); return got == want })
+	Eventually(opBudgetNow(), func() bool { got = obs(); return got == want })
 	w.S.Close()
 	return got
 }
@@ -280,7 +280,19 @@ func RunFlvScripts(c *hlib.Ctx, tag string, scripts []FlvScript) {
 	}
 	outs := c.Drive(lines)
 	for i, sc := range scripts {
+		if atomic.LoadInt64(&confirmedFailures) >= maxFindingsPerRun {
+			c.Count("flv-script-not-run-after-findings")
+			continue
+		}
 		got := sc.RunImpl(outs[i])
+		if got != outs[i] {
+			// never matched within the budget: once more on a fresh stream before it is reported
+			c.Count("flv-script-rerun")
+			got = sc.RunImpl(outs[i])
+			if got != outs[i] {
+				atomic.AddInt64(&confirmedFailures, 1)
+			}
+		}
 		nj := 0
 		for _, o := range sc.Ops {
 			switch o.Code {
